@@ -53,7 +53,7 @@ def random_expr(rng, depth):
 
 
 def enumerate_cases(tier):
-    r = tlc("mc/MC_Evaluator", workers=1, timeout=1800, env={"TIER": tier}, xmx="8g")
+    r = tlc("mc/MC_Evaluator", workers=4, timeout=1800, env={"TIER": tier}, xmx="8g")
     tlc_ok(r, "MC_Evaluator(%s)" % tier)
     uni = r.tagged("UNIVERSE")
     cases = r.tagged("CASE")
@@ -222,7 +222,7 @@ def run(tier):
         if "expr" in r:
             pinned[r["id"]] = r["expr"]
             cases.append({"id": r["id"], "expr": r["expr"], "depth": 9, "shape": "pinned"})
-    cap = 200 if tier == "quick" else 600
+    cap = 200
     t0 = time.time()
     verdicts, recs, status, states, gen = observe_and_judge(rep.wd, "main", cases, uni, cap)
     log("judged %d expressions in %.0fs" % (len(verdicts), time.time() - t0))
